@@ -186,6 +186,12 @@ func (ipv6 *IPv6) SerializeTo(b gopacket.SerializeBuffer, opts gopacket.Serializ
 			if err != nil {
 				return err
 			}
+			for _, t := range ipv6.HopByHop.Options {
+				if t.OptionType == IPv6HopByHopOptionJumbogram && len(t.OptionData) == 4 {
+					binary.BigEndian.PutUint32(t.OptionData, uint32(pLen))
+					break
+				}
+			}
 		}
 	}
 
